@@ -434,6 +434,11 @@ func (ch *Chain) Exec(e M) Outcome {
 		return Outcome{OK: true, Resp: M{"ch": absx.Str(e["ch"])}}
 	case "Query":
 		return ch.query(e)
+	case "InitRaw":
+		if !ch.InitRaw(absx.Int(e["period"])) {
+			return Outcome{OK: false, Err: "InitGenesis refused the genesis"}
+		}
+		return Outcome{OK: true, Resp: M{"accepted": true}}
 	case "ExportImport":
 		same, err := ch.ExportImport()
 		if err != nil {
